@@ -222,3 +222,13 @@ impl DevInputWriter {
   }
 }
 
+
+// Verification hook. Compiled only with `--cfg ellbur_totalmapper_verif`: lets a
+// simulator hand the writer a file descriptor it owns (e.g. a pipe) instead of
+// /dev/uinput, so the bytes `send` produces can be inspected.
+#[cfg(ellbur_totalmapper_verif)]
+impl DevInputWriter {
+  pub fn verif_from_fd(fd: RawFd) -> DevInputWriter {
+    DevInputWriter { fd }
+  }
+}
